@@ -249,6 +249,8 @@ func VerifHarness_C07_certs() {
 	verifAssert("C07.certs.requiredPresent", !required || n > 0)
 	verifAssert("C01.compat.requiredClientCertEnforced", !required || n > 0)
 	verifAssert("C07.certs.ecdheNeedsTwo", !ecdhe || n >= 2)
+	// C09 (assume-guarantee): the ECDHE code that follows indexes peerCertificates[1]; this is the guarantee it relies on
+	verifAssert("C09.certs.ecdheNeedsTwo", !ecdhe || n >= 2)
 	verifAssert("C07.certs.peerCertificates", len(c.peerCertificates) == n)
 	mustVerify := policy >= VerifyClientCertIfGiven && n > 0
 	if mustVerify {
